@@ -501,6 +501,106 @@ fn pair_case(family: &'static str, index: u64, r: &mut Rng, g: DDesc, h: DDesc) 
     c.sample_n(3, || json!({"family": family, "index": index, "pair": p.json()}));
 }
 
+/// Chains: 3-5 operations one after the other on the SAME graph object - plug(h_k),
+/// adjoint() in place, append_graph(h_k) with the boundary lists completed as documented, a
+/// clone taken in between - with the expected tensor carried along by the oracle's own
+/// compose / dagger / tensor. What one operation leaves behind (recycled ids and holes after
+/// the seam vertices were removed, boundary lists rebuilt, scalar accumulated) is the next
+/// operation's receiver; the single-operation families always start from a fresh build.
+fn chain_case<G: GraphLike>(family: &'static str, index: u64, bk: &str, r: &mut Rng) {
+    let c = ctx();
+    let sh = Shape { max_spiders: 3, pool: if r.chance(0.8) { PhasePool::Exact } else { PhasePool::Float }, graph_like: r.chance(0.3), bare_p: 0.2, h_p: 0.3, multi_p: 0.3, same_role_pairs: r.chance(0.3) };
+    let (mut ni, mut no) = (r.below(3), r.below(4));
+    let d0 = gen_shaped(r, &sh, ni, no);
+    let scr = if r.chance(0.5) { Some(r.next_u64()) } else { None };
+    let (mut g, _) = d0.build::<G>(scr);
+    let Some(mut t) = eval_operand(&g, "chain start") else { return };
+    let mut trail: Vec<Value> = vec![json!({"start": d0.to_json(), "scramble": scr})];
+    let steps = 3 + r.below(3);
+    let mut done = 0;
+    for _ in 0..steps {
+        let op = r.below(10);
+        if op < 5 {
+            // plug
+            let ho = r.below(4);
+            let h = gen_shaped(r, &sh, no, ho);
+            let sh_scr = if r.chance(0.5) { Some(r.next_u64()) } else { None };
+            let (hg, _) = h.build::<VG>(sh_scr);
+            let Some(eh) = eval_operand(&hg, "chain operand") else { return };
+            t = t_compose(&t, ni, no, &eh, no, ho);
+            trail.push(json!({"plug": h.to_json(), "scramble": sh_scr}));
+            if let Err(e) = guarded(|| g.plug(&hg)) {
+                if !matches!(e, Caught::Oracle(_)) {
+                    c.violation(&format!("plug|{}|in-chain", pclass(&e)), family, index, json!({"backend": bk, "chain": trail, "panic": e.text()}));
+                }
+                return;
+            }
+            no = ho;
+            c.count("chain-op:plug", 1);
+        } else if op < 7 {
+            t = t_dagger(&t, ni, no);
+            std::mem::swap(&mut ni, &mut no);
+            trail.push(json!("adjoint()"));
+            if let Err(e) = guarded(|| g.adjoint()) {
+                if !matches!(e, Caught::Oracle(_)) {
+                    c.violation(&format!("adjoint|{}|in-chain", pclass(&e)), family, index, json!({"backend": bk, "chain": trail, "panic": e.text()}));
+                }
+                return;
+            }
+            c.count("chain-op:adjoint", 1);
+        } else if op < 9 && ni + no <= 4 {
+            let (hi, ho) = (r.below(2), r.below(2));
+            let h = gen_shaped(r, &sh, hi, ho);
+            let (hg, _) = h.build::<HG>(None);
+            let Some(eh) = eval_operand(&hg, "chain operand") else { return };
+            t = t_tensor(&t, ni, no, &eh, hi, ho);
+            trail.push(json!({"append_graph": h.to_json()}));
+            let (g_in, g_out) = (g.inputs().clone(), g.outputs().clone());
+            match guarded(|| g.append_graph(&hg)) {
+                Err(e) => {
+                    if !matches!(e, Caught::Oracle(_)) {
+                        c.violation(&format!("append_graph|{}|in-chain", pclass(&e)), family, index, json!({"backend": bk, "chain": trail, "panic": e.text()}));
+                    }
+                    return;
+                }
+                Ok(vmap) => {
+                    let mut ins = g_in;
+                    let mut outs = g_out;
+                    if hg.inputs().iter().chain(hg.outputs().iter()).any(|v| !vmap.contains_key(v)) {
+                        c.violation("append_graph|renaming-not-a-bijection-onto-fresh-ids|in-chain", family, index, json!({"backend": bk, "chain": trail, "map": format!("{vmap:?}")}));
+                        return;
+                    }
+                    ins.extend(hg.inputs().iter().map(|v| vmap[v]));
+                    outs.extend(hg.outputs().iter().map(|v| vmap[v]));
+                    g.set_inputs(ins);
+                    g.set_outputs(outs);
+                }
+            }
+            ni += hi;
+            no += ho;
+            c.count("chain-op:append_graph", 1);
+        } else {
+            g = g.clone();
+            trail.push(json!("clone()"));
+            c.count("chain-op:clone", 1);
+        }
+        done += 1;
+        if g.inputs().len() != ni || g.outputs().len() != no {
+            c.violation("chain|boundary-lists-wrong", family, index, json!({"backend": bk, "chain": trail, "expected_inputs_outputs": [ni, no], "result": graph_json(&g)}));
+            return;
+        }
+        if let Some((class, extra)) = compare_result(&g, &t) {
+            let last = trail.last().map(|v| if v.is_string() { v.as_str().unwrap_or("").to_string() } else { v.as_object().and_then(|o| o.keys().next().cloned()).unwrap_or_default() }).unwrap_or_default();
+            let last = last.trim_end_matches("()").to_string();
+            c.violation(&format!("{last}|{class}|in-chain"), family, index, json!({"backend": bk, "chain": trail, "failed_after_step": done, "extra": extra}));
+            return;
+        }
+    }
+    c.maximum("max_chain_length", done as u64);
+    let hsh = hash_bytes(format!("{family}{bk}{trail:?}").as_bytes());
+    c.case(family, if done >= 2 { Some(hsh) } else { None });
+}
+
 /// Family (c): operands derived from circuits. quizx's own translation is used only as an
 /// input generator: the expected value is computed from the evaluator applied to the very
 /// operands. Variants: plain, first operand adjointed (the composition the equality checker
@@ -1140,6 +1240,13 @@ pub fn run() {
 
     let n_un = t.pick(3600usize, 100_000usize);
     let max_w = t.pick(3usize, 4usize);
+    par_cases("chains", n_pairs, move |r, i| {
+        if i % 2 == 0 {
+            chain_case::<VG>("chains", i, "vec", r)
+        } else {
+            chain_case::<HG>("chains", i, "hash", r)
+        }
+    });
     par_cases("unary-arbitrary-exact", n_un, move |r, i| {
         let sh = Shape { max_spiders: max_sp, ..arb };
         let (ni, no) = (r.below(max_w + 1), r.below(max_w + 1));
